@@ -1,6 +1,6 @@
 //! Evidence files: what a run of a check actually covered.
 
-use crate::pool::verif_root;
+use crate::pool::out_root;
 use serde_json::{Map, Value, json};
 
 pub struct Evidence {
@@ -36,7 +36,7 @@ impl Evidence {
     }
 
     pub fn write(&self) -> std::io::Result<()> {
-        let dir = verif_root().join("evidence");
+        let dir = out_root().join("evidence");
         std::fs::create_dir_all(&dir)?;
         let mut root = Map::new();
         root.insert("property_id".into(), json!(self.property_id));
